@@ -54,7 +54,7 @@ REF_COLS = [None, "id", "k"]
 REF_COLS_KW = [None, "id", "k", "key", "comment", "order", "default", "type", "start", "data"]
 
 
-def gen_column(rng, name, allow_pk=True, allow_ref=True, kw_refs=False):
+def gen_column(rng, name, allow_pk=True, allow_ref=True, kw_refs=False, allow_check=False):
     col = {"name": name, "opts": []}
     k = rng.randrange(10)
     if k < 5:
@@ -77,8 +77,14 @@ def gen_column(rng, name, allow_pk=True, allow_ref=True, kw_refs=False):
         kinds.append("pk")
     if allow_ref:
         kinds.append("ref")
+    if allow_check and rng.random() < 0.35:
+        kinds.append("check")          # an inline CHECK at ANY position among the options
     rng.shuffle(kinds)
     for kd in kinds[: rng.choice([0, 0, 1, 1, 2, 3, 4])]:
+        if kd == "check":
+            ident = name if name in NAMES else "v"
+            col["opts"].append(("check", rng.choice(["%s > 0", "%s <> 'x y'", "%s >= 10", "%s < 100"]) % ident))
+            continue
         if kd == "null":
             col["opts"].append(("null", rng.choice([True, False])))
         elif kd == "default":
@@ -106,7 +112,7 @@ def gen_table(rng, ncols=None, constraints=True, kw_names=False, name=None, sche
     pk_mech = rng.choice(["none", "inline", "clause", "named"]) if constraints else rng.choice(["none", "inline"])
     t = {"name": name or rng.choice(TABLE_NAMES), "schema": rng.choice(SCHEMAS) if schema == "?" else schema, "cols": [], "items": []}
     for nm in names:
-        t["cols"].append(gen_column(rng, nm, allow_pk=(pk_mech == "inline"), kw_refs=kw_refs))
+        t["cols"].append(gen_column(rng, nm, allow_pk=(pk_mech == "inline"), kw_refs=kw_refs, allow_check=constraints))
     if pk_mech == "inline" and not any(o[0] == "pk" for c in t["cols"] for o in c["opts"]):
         t["cols"][rng.randrange(n)]["opts"].append(("pk",))
     if not constraints:
@@ -172,6 +178,8 @@ def render_column(c, rng=None):
             s += " " + kw(rng, "UNIQUE")
         elif o[0] == "pk":
             s += " " + kw(rng, "PRIMARY") + " " + kw(rng, "KEY")
+        elif o[0] == "check":
+            s += " " + kw(rng, "CHECK") + " (%s)" % o[1]
         elif o[0] == "ref":
             r = o[1]
             s += " " + kw(rng, "REFERENCES") + " " + ((r["schema"] + ".") if r["schema"] else "") + r["table"]
@@ -242,6 +250,8 @@ def expected_table(t):
             elif o[0] == "pk":
                 inline_pk.append(c["name"])
                 e["nullable"] = False
+            elif o[0] == "check":
+                e["check"] = o[1]           # the expression as written, whatever options follow it
             elif o[0] == "ref":
                 r = o[1]
                 e["references"] = {"table": r["table"], "schema": r["schema"], "on_delete": r["on_delete"],
